@@ -14,6 +14,9 @@ type C06Case struct {
 	PermKnown []int  `json:"permKnown"`
 	PermChose []int  `json:"permChose"`
 	Shift     int    `json:"shift"` // every k multiplied by 2^Shift
+	// Between: another (valid) ELECTRE III request decided between the original and its permuted / rescaled
+	// forms: the relations hold between any two decisions of one process, not only between consecutive ones
+	Between string `json:"between,omitempty"`
 }
 
 func weaklyDominates(v *ReqView, a, b *AltView) (dom bool, strict bool, tie bool) {
@@ -86,6 +89,10 @@ func judgeC06(c C06Case) *Fail {
 				}
 			}
 		}
+	}
+	if c.Between != "" {
+		st.inc("C06:other-request-in-between")
+		decide([]byte(c.Between))
 	}
 	// permutation of the listing
 	m2 := deepCopyM(m).(M)
@@ -164,7 +171,11 @@ func genC06(t *rapid.T) C06Case {
 		}
 	}
 	nk, nc := len(asL(req["knownAlternatives"])), len(chose)
-	return C06Case{Req: string(mustJSON(req)), PermKnown: g.Perm(nk), PermChose: g.Perm(nc), Shift: g.Int(-3, 8)}
+	c := C06Case{Req: string(mustJSON(req)), PermKnown: g.Perm(nk), PermChose: g.Perm(nc), Shift: g.Int(-3, 8)}
+	if g.Chance(1, 4) {
+		c.Between = string(mustJSON(genElectreReq(t, 2).Req))
+	}
+	return c
 }
 
 func init() { register("C06", "C06", 1, genC06, judgeC06) }
